@@ -330,7 +330,7 @@ fn curve_item(rep: &mut Report, rng: &mut Rng, args: &Args, ad: &dyn CAd, c: Com
     let size = enc::point_size(fi, ci.format, compressed);
     let cx = Ctx { ad, c, size, dp: format!("deser/{}/{}/{}", model(ad), ci.name, cname(c)) };
     let weight = (fi.bits / 64 + 1) * fi.dim * if ci.cofactor > UInt::one() { 2 } else { 1 };
-    let n = (bud(args, 2400, 72000) / weight).max(3);
+    let n = (bud(args, 2400, 48000) / weight).max(3);
     let g = ad.generator();
     let id = identity(ad);
     let both = [Validate::Yes, Validate::No];
